@@ -48,77 +48,8 @@ func runC17(c *engine.Ctx) {
 		c.Decide(r1, fmt.Sprintf("%s|%s", engine.FuncName(f), accessKind(fa)), fa.Pos(), ok, why, "peerProcesses accessed without peerProcessesLk: "+why)
 	}
 
-	// R2
-	var cbRoots []*ssa.Function
+	c17ShutdownCallback(c, r2, pmFns, table)
 	factoryF := c.P.Field("peermanager", "PeerManager", "createPeerProcess")
-	for _, f := range pmFns {
-		for _, ci := range engine.Calls(f) {
-			if ci.Static != nil || ci.Common.IsInvoke() {
-				continue
-			}
-			if fl, _ := engine.LoadedField(ci.Common.Value); fl == nil || fl != factoryF {
-				continue
-			}
-			for _, a := range ci.Common.Args {
-				if _, isSig := a.Type().Underlying().(*types.Signature); !isSig {
-					continue
-				}
-				if fn := resolveFuncValue(a); fn != nil {
-					cbRoots = append(cbRoots, fn)
-				} else {
-					c.Undecided(r2, engine.FuncName(f)+"|shutdown-callback", ci.Instr.Pos(), "cannot resolve the shutdown callback handed to the process factory")
-				}
-			}
-		}
-	}
-	if len(cbRoots) == 0 {
-		c.AnchorMissing(r2, "the shutdown callback passed to PeerManager.createPeerProcess")
-	}
-	seen := map[*ssa.Function]bool{}
-	nDel := 0
-	var visit func(f *ssa.Function, depth int)
-	visit = func(f *ssa.Function, depth int) {
-		if seen[f] || depth > 3 || f.Blocks == nil {
-			return
-		}
-		seen[f] = true
-		c.Analysed(engine.FuncName(f))
-		for _, del := range engine.MapDeletesOfField([]*ssa.Function{f}, table) {
-			nDel++
-			guarded := false
-			for _, cond := range engine.InstrConds(del) {
-				e, ok := cond.AsEq()
-				if !ok || !e.Equal {
-					continue
-				}
-				for _, side := range []ssa.Value{e.X, e.Y} {
-					s := engine.Strip(side)
-					if ex, isEx := s.(*ssa.Extract); isEx {
-						s = ex.Tuple
-					}
-					if lkp, isL := s.(*ssa.Lookup); isL && isLoadOfField(lkp.X, table) && engine.SameValue(lkp.Index, del.Call.Args[1]) {
-						guarded = true
-					}
-				}
-			}
-			c.Decide(r2, engine.FuncName(f)+"|delete-on-shutdown", del.Pos(), guarded,
-				"delete dominated by peerProcesses[p] == <the instance that shut down>",
-				"the shutdown callback deletes whatever is stored for the peer: a late callback from a dead queue removes its live successor, after which a third queue is created while the second is still running")
-		}
-		for _, g := range engine.WithClosures(f) {
-			for _, ci := range engine.Calls(g) {
-				if ci.Static != nil && engine.FuncPkgPath(ci.Static) == engine.Module+"/peermanager" {
-					visit(ci.Static, depth+1)
-				}
-			}
-		}
-	}
-	for _, r := range cbRoots {
-		visit(r, 0)
-	}
-	if len(cbRoots) > 0 && nDel == 0 {
-		c.Violate(r2, "shutdown-callback|no-delete", cbRoots[0].Pos(), "the shutdown callback no longer removes the dead process from the table: GetProcess keeps handing out a dead queue")
-	}
 
 	// R3a: Startup only on the create path
 	nStart := 0
@@ -313,6 +244,39 @@ func runC17(c *engine.Ctx) {
 		}
 	})
 	c.Decide(r4, engine.FuncName(m.extract)+"|take-head", m.extract.Pos(), headOK, "takes builders[0] and keeps builders[1:] under buildersLk", "the extract step does not take the head of the builders list under the lock (messages would leave out of order)")
+	// what is enqueued goes into the newest builder: the build function is applied to builders[len(builders)-1]
+	for _, f := range m.fns {
+		for _, ci := range engine.Calls(f) {
+			p, isParam := ci.Common.Value.(*ssa.Parameter)
+			if !isParam || ci.Common.IsInvoke() || len(ci.Common.Args) != 1 {
+				continue
+			}
+			if _, isFn := p.Type().Underlying().(*types.Signature); !isFn {
+				continue
+			}
+			if !engine.IsNamed(ci.Common.Args[0].Type(), "~/messagequeue", "Builder") {
+				continue
+			}
+			arg := engine.LocalValue(ci.Common.Args[0])
+			newest := false
+			if u, ok := arg.(*ssa.UnOp); ok && u.Op == token.MUL {
+				if ia, ok := u.X.(*ssa.IndexAddr); ok && isLoadOfField(ia.X, m.builders) {
+					if sub, ok := engine.Strip(ia.Index).(*ssa.BinOp); ok && sub.Op == token.SUB {
+						if k, ok := engine.ConstInt(sub.Y); ok && k == 1 {
+							if lc2, ok := sub.X.(*ssa.Call); ok {
+								if lb, ok := lc2.Call.Value.(*ssa.Builtin); ok && lb.Name() == "len" && isLoadOfField(lc2.Call.Args[0], m.builders) {
+									newest = true
+								}
+							}
+						}
+					}
+				}
+			}
+			c.Decide(r4, engine.FuncName(f)+"|build-into-newest", ci.Instr.Pos(), newest,
+				"the build function is applied to the newest builder (builders[len-1])",
+				"what is enqueued can go into a builder other than the newest one: builders leave front to back, so data queued later can overtake data queued earlier")
+		}
+	}
 	for _, f := range m.fns {
 		for _, st := range engine.StoresTo([]*ssa.Function{f}, m.builders) {
 			call, ok := st.Val.(*ssa.Call)
@@ -415,4 +379,102 @@ func accessKind(fa *ssa.FieldAddr) string {
 		}
 	}
 	return kind
+}
+
+// c17ShutdownCallback (C17.R2, C16.R5): the callback a process invokes when it ends removes exactly that process from
+// the table, and does so whenever it is still the one listed.
+func c17ShutdownCallback(c *engine.Ctx, r2 string, pmFns []*ssa.Function, table *types.Var) {
+	// R2
+	var cbRoots []*ssa.Function
+	factoryF := c.P.Field("peermanager", "PeerManager", "createPeerProcess")
+	for _, f := range pmFns {
+		for _, ci := range engine.Calls(f) {
+			if ci.Static != nil || ci.Common.IsInvoke() {
+				continue
+			}
+			if fl, _ := engine.LoadedField(ci.Common.Value); fl == nil || fl != factoryF {
+				continue
+			}
+			for _, a := range ci.Common.Args {
+				if _, isSig := a.Type().Underlying().(*types.Signature); !isSig {
+					continue
+				}
+				if fn := resolveFuncValue(a); fn != nil {
+					cbRoots = append(cbRoots, fn)
+				} else {
+					c.Undecided(r2, engine.FuncName(f)+"|shutdown-callback", ci.Instr.Pos(), "cannot resolve the shutdown callback handed to the process factory")
+				}
+			}
+		}
+	}
+	if len(cbRoots) == 0 {
+		c.AnchorMissing(r2, "the shutdown callback passed to PeerManager.createPeerProcess")
+	}
+	seen := map[*ssa.Function]bool{}
+	nDel := 0
+	var visit func(f *ssa.Function, depth int)
+	visit = func(f *ssa.Function, depth int) {
+		if seen[f] || depth > 3 || f.Blocks == nil {
+			return
+		}
+		seen[f] = true
+		c.Analysed(engine.FuncName(f))
+		for _, del := range engine.MapDeletesOfField([]*ssa.Function{f}, table) {
+			nDel++
+			guarded := false
+			extra := 0
+			for _, cond := range engine.RawInstrConds(del) {
+				isIdentity := false
+				if e, ok := cond.AsEq(); ok && e.Equal {
+					for _, side := range []ssa.Value{e.X, e.Y} {
+						s := engine.Strip(side)
+						if ex, isEx := s.(*ssa.Extract); isEx {
+							s = ex.Tuple
+						}
+						if lkp, isL := s.(*ssa.Lookup); isL && isLoadOfField(lkp.X, table) && engine.SameValue(lkp.Index, del.Call.Args[1]) {
+							isIdentity = true
+						}
+					}
+				}
+				if !isIdentity {
+					extra++
+				}
+			}
+			for _, cond := range engine.InstrConds(del) {
+				e, ok := cond.AsEq()
+				if !ok || !e.Equal {
+					continue
+				}
+				for _, side := range []ssa.Value{e.X, e.Y} {
+					s := engine.Strip(side)
+					if ex, isEx := s.(*ssa.Extract); isEx {
+						s = ex.Tuple
+					}
+					if lkp, isL := s.(*ssa.Lookup); isL && isLoadOfField(lkp.X, table) && engine.SameValue(lkp.Index, del.Call.Args[1]) {
+						guarded = true
+					}
+				}
+			}
+			c.Decide(r2, engine.FuncName(f)+"|delete-on-shutdown", del.Pos(), guarded,
+				"delete dominated by peerProcesses[p] == <the instance that shut down>",
+				"the shutdown callback deletes whatever is stored for the peer: a late callback from a dead queue removes its live successor, after which a third queue is created while the second is still running")
+			c.Decide(r2, engine.FuncName(f)+"|delete-on-shutdown-unconditional", del.Pos(), extra == 0,
+				"a process that has ended is removed from the table whenever it is still the one listed (no further condition)",
+				"the process that shut itself down is removed from the table only under a further condition: otherwise the dead process stays listed, GetProcess keeps handing it out, and messages queued on it are never sent nor reported")
+		}
+		for _, g := range engine.WithClosures(f) {
+			for _, ci := range engine.Calls(g) {
+				if ci.Static != nil && engine.FuncPkgPath(ci.Static) == engine.Module+"/peermanager" {
+					visit(ci.Static, depth+1)
+				}
+			}
+		}
+	}
+	for _, r := range cbRoots {
+		visit(r, 0)
+	}
+	if len(cbRoots) > 0 && nDel == 0 {
+		c.Violate(r2, "shutdown-callback|no-delete", cbRoots[0].Pos(), "the shutdown callback no longer removes the dead process from the table: GetProcess keeps handing out a dead queue")
+	}
+
 }
